@@ -5,6 +5,7 @@ package dh
 import (
 	"bytes"
 	"fmt"
+	"os"
 	"runtime"
 	"strings"
 	"time"
@@ -183,8 +184,21 @@ func (x *DH) Diag(e *ep.Endpoint) string {
 			keep = append(keep, g)
 		}
 	}
-	return fmt.Sprintf("incarnations=%d received=%dB out=%d slow_conn=%d conn_down=%d slow_spool=%d\n%s",
-		len(e.Incarnations()), len(e.All()), x.Out(), x.SlowConn(), x.ConnDown(), x.SlowSpool(), strings.Join(keep, "\n\n"))
+	// kernel view of the endpoint's port: LISTEN sockets (rx_queue = connections waiting to be accepted) and connections
+	var socks []string
+	if b, err := os.ReadFile("/proc/net/tcp"); err == nil {
+		hexPort := fmt.Sprintf(":%04X ", e.Port)
+		for _, l := range strings.Split(string(b), "\n") {
+			if strings.Contains(l, hexPort) {
+				f := strings.Fields(l)
+				if len(f) > 9 {
+					socks = append(socks, fmt.Sprintf("%s->%s st=%s tx:rx=%s inode=%s", f[1], f[2], f[3], f[4], f[9]))
+				}
+			}
+		}
+	}
+	return fmt.Sprintf("incarnations=%d received=%dB out=%d slow_conn=%d conn_down=%d slow_spool=%d endpoint: %s\nsockets on port %d: %v\n%s",
+		len(e.Incarnations()), len(e.All()), x.Out(), x.SlowConn(), x.ConnDown(), x.SlowSpool(), e.Status(), e.Port, socks, strings.Join(keep, "\n\n"))
 }
 
 // PlainContains: the stream contains the marker as a complete line.
